@@ -1,10 +1,38 @@
 (* C07 - incremental lexing yields the batch token stream and an exact change window.
-   Statements only.  The full statement is Spec.LexUpdateSpec.C07_full_statement. *)
-From Spl Require Import Spec.LexUpdateSpec Proofs.LexUpdateSmall.
+   Statements only. *)
+From Spl Require Import Spec.LexUpdateSpec Proofs.LexLocality Proofs.LexUpdateSmall Proofs.LexUpdateProofs.
 
-(* Bounded instance, decided by the kernel's VM: for every text of length <= 2 over the 16-symbol
-   alphabet that covers every look-ahead class, every split a ++ d ++ b and every insertion of
-   length <= 1, `lex_update` returns the fresh token stream and a truthful window. *)
+(* For ALL texts a ++ d ++ b, all replacements of d by ins: updating the token stream of the old
+   text returns exactly the tokens of a fresh tokenisation of the new text (kinds, values, ranges,
+   attached lexical errors) - never a panic, never out of fuel - and the reported window is
+   truthful: the tokens before it are the old ones untouched, the tokens after it are the old
+   ones shifted by the length difference of the edit, and the lengths add up. *)
+Theorem C07_update_is_lex :
+  forall (a d b ins : text) (toks_old : list token),
+    lex (a ++ d ++ b) = Some toks_old ->
+    exists toks_new ds de n,
+      lex (a ++ ins ++ b) = Some toks_new /\
+      lex_update (a ++ ins ++ b) toks_old (blen a) (blen a + blen d) ins = UDone toks_new ds de n /\
+      Truthful toks_old toks_new ds de n (blen ins) (blen d).
+Proof. exact lex_update_correct. Qed.
+Print Assumptions C07_update_is_lex.
+
+(* The look-ahead table is justified kind by kind: a token is reproduced on every text that
+   agrees with the original on the token's own characters and, for look-ahead 1, on the next
+   character (or on being at the end of the text). *)
+Theorem C07_locality : forall s k e lx r r',
+  lex_raw s = Some (k, e, lx, r) -> (look_ahead k = 1 -> agree1 r r') ->
+  lex_raw (lx ++ r') = Some (k, e, lx, r').
+Proof. exact lex_raw_local. Qed.
+Print Assumptions C07_locality.
+
+(* Bounded instance decided by the kernel's VM (a cross-check of the statement itself): every text
+   of length <= 2 over the 16-symbol alphabet, every split, every insertion of length <= 1. *)
 Theorem C07_small_scope : sweep 2 1 = true.
 Proof. exact sweep_2_1. Qed.
 Print Assumptions C07_small_scope.
+
+(* non-vacuity: a change inside a comment at the end of the text that turns it into code *)
+Example C07_example :
+  c07_instance_b [97; 32] [47; 47] [120; 39] [10] = true.
+Proof. vm_compute. reflexivity. Qed.
